@@ -25,7 +25,7 @@ import (
 
 // C16 — the etcd-facing API answers Kubernetes' requests as etcd would.
 
-var c16Engines = []string{"memkv", "tikv", "badger", "memkv"}
+var c16Engines = []string{"memkv", "tikv", "badger", "memkv", "tikv/split", "memkv", "tikv", "badger", "memkv/parts"}
 
 func init() {
 	Registry["C16"] = &Prop{
@@ -478,9 +478,23 @@ func runC16(c *harness.Case) {
 		return
 	}
 	kind := c16Engines[c.Index%len(c16Engines)]
-	n, eng, ok := newSeqNode(c, kind, backend.Config{EnableEtcdCompatibility: true})
-	if !ok {
-		return
+	var n *harness.Node
+	var eng *harness.Engine
+	if strings.Contains(kind, "/") {
+		// the engine reports several partitions (TiKV mock pre-split into regions / GetPartitions override), with
+		// borders among the keys this case writes: the etcd answers must not depend on that
+		pkeys := []string{harness.Prefix + "/a", harness.Prefix + "/a/b", harness.Prefix + "/b", harness.Prefix + "/b/c", harness.Prefix + "/c", harness.Prefix + "/d"}
+		kv, e2, _, ok := partitionedStore(c, newRand(c.Rng.Int63()), strings.Split(kind, "/")[0], pkeys, 1000, 60)
+		if !ok {
+			return
+		}
+		eng = e2
+		n = harness.NewNode(harness.NodeOpts{KV: kv, Config: backend.Config{EnableEtcdCompatibility: true}})
+	} else {
+		var ok bool
+		if n, eng, ok = newSeqNode(c, kind, backend.Config{EnableEtcdCompatibility: true}); !ok {
+			return
+		}
 	}
 	defer eng.Close()
 	defer n.Retire()
